@@ -77,6 +77,23 @@ func (t *Tape) Intn(n int) int {
 	return int(v)
 }
 
+// Force records v%n as the outcome of a draw among n without consulting the
+// generator: it lets a check enumerate a finite table through the run index
+// while the choice still lives on the tape (a replayed tape returns the
+// recorded value, so replay and shrinking work as for any other draw).
+func (t *Tape) Force(n, v int) int {
+	if n <= 1 {
+		return 0
+	}
+	if t.isRep {
+		return t.Intn(n)
+	}
+	t.rng.next() // keep the stream position in step with an ordinary draw
+	x := uint32(v % n)
+	t.Rec = append(t.Rec, x)
+	return int(x)
+}
+
 // Bool is Intn(2)==1.
 func (t *Tape) Bool() bool { return t.Intn(2) == 1 }
 
@@ -97,16 +114,17 @@ func (t *Tape) Pos() int { return len(t.Rec) }
 // Set is a named collection of forks; the identity of a run.
 type Set struct {
 	Seed  uint64
+	Index int // run / case index of a fresh tape; -1 when replaying
 	forks map[string]*Tape
 	order []string
 	rep   map[string][]uint32
 	isRep bool
 }
 
-func NewSet(seed uint64) *Set { return &Set{Seed: seed, forks: map[string]*Tape{}} }
+func NewSet(seed uint64) *Set { return &Set{Seed: seed, Index: -1, forks: map[string]*Tape{}} }
 
 func ReplaySet(seed uint64, rec map[string][]uint32) *Set {
-	return &Set{Seed: seed, forks: map[string]*Tape{}, rep: rec, isRep: true}
+	return &Set{Seed: seed, Index: -1, forks: map[string]*Tape{}, rep: rec, isRep: true}
 }
 
 // Fork returns the named sub-stream, creating it on first use.
